@@ -39,7 +39,19 @@ def materials(d):
     a1 = np.array([0.6, 0.8, 0.0]) if d == 2 else np.array([1 / 3, 2 / 3, 2 / 3])
     a2 = np.array([-0.8, 0.6, 0.0]) if d == 2 else np.array([2 / 3, -2 / 3, 1 / 3])
     ti = E.TransverselyIsotropic(d, El=8.0, Et=4.0, Gl=2.0, vl=0.25, vt=0.25, axis_l=a1, axis_t=a2, planeStress=False)
-    return {"iso": iso, "ti": ti}
+    # a law given by its matrix (every coupling present), and the same law after its stiffness was replaced with
+    # Set_C(..., update_S=False): the compliance is then deliberately NOT refreshed, so only splits defined from the stiffness
+    # alone (He: C^(1/2) and its inverse) are judged on it
+    n = 3 if d == 2 else 6
+    L = np.eye(n) + np.tril((np.arange(float(n * n)).reshape(n, n) % 5 - 2) * 0.1, -1)
+    C0 = L @ L.T * 8.0
+    C0 = (C0 + C0.T) / 2
+    aniso = E.Anisotropic(d, C0.copy(), False)
+    keep = E.Anisotropic(d, C0.copy(), False)
+    L1 = np.eye(n) + np.tril((np.arange(float(n * n)).reshape(n, n) % 3 - 1) * 0.2, -1)
+    C1 = L1 @ L1.T * 5.0
+    keep.Set_C((C1 + C1.T) / 2, False, update_S=False)
+    return {"iso": iso, "ti": ti, "aniso": aniso, "aniso-keepS": keep}
 
 
 def split_job(job):
@@ -246,7 +258,7 @@ def run(ctx):
         sts = [s for s in states if s["dim"] == d]
         for split in [str(s) for s in PF.Get_splits()]:
             for regu in [str(r) for r in PF.Get_regularizations()][: (2 if ctx.thorough else 1)]:
-                for matname in ("iso", "ti"):
+                for matname in ("iso", "ti", "aniso") + (("aniso-keepS",) if split == "He" else ()):
                     jobs.append((d, split, regu, matname, sts, ctx.seed + len(jobs), False))
                     if d == 3:
                         jobs.append((d, split, regu, matname, sts, ctx.seed + len(jobs), True))
